@@ -84,7 +84,7 @@ SCall(e) ==
   LET m == FirstMatch(e)
       D == (IF m = 0 THEN Deviations ELSE Cands[m]) \ CTags
       full == Deviations \cap CTags
-      rel == CTakenAt([Sc EXCEPT !.dev = D \cup full], e.call)
+      rel == CRelevant([Sc EXCEPT !.dev = D \cup full], e.call)
       oks == {R \in SUBSET rel : SMatch(e, D \cup (full \ R))}
       off == IF oks = {} THEN {} ELSE CHOOSE R \in oks : \A Q \in oks : Cardinality(R) <= Cardinality(Q)
       cdev == D \cup (full \ off)
